@@ -323,19 +323,23 @@ LONG_SIZES = {
                               for d in (-1, 0, 1)} | {100, 130, 200, 300})),
 }
 LONG_AGG_SIZES = {'quick': (65, 130, 200), 'thorough': (65, 129, 130, 200, 257)}
+LONG_OPS_AGG_SIZES = {'quick': (200,), 'thorough': (65, 129, 130, 200, 257)}
 SMALL_SIZES = (0, 1, 2, 3, 5)
 NESTED = ((2, 2), (2, 3), (3, 2), (3, 3))     # (make shards, worker threads)
 
 
-def check_sources(st, ops, agg, n, max_shards=4):
+def check_sources(st, ops, agg, n, max_shards=4, part=(0, 1)):
   """Every way of cutting the data source of one program, for one dataset size
-  (the source-level strategies; no thread is started)."""
+  (the source-level strategies; no thread is started).  part = (i, k): the
+  i-th of k work units that share the strategies of this (program, n)."""
   records = S.dataset(n)
   klass = _klass(ops, agg)
   rows = S.rebatches(ops)
   base = {'ops': list(ops), 'agg': agg, 'n': n, 'space': 'sources'}
   nontrivial = n > 0
-  st.case(('sources/reference', ops, agg, n), nontrivial=nontrivial)
+  first = part[0] == 0
+  if first:
+    st.case(('sources/reference', ops, agg, n), nontrivial=nontrivial)
   try:
     ref = S.reference(ops, agg, records)
   except Exception as e:  # pylint: disable=broad-except
@@ -349,15 +353,16 @@ def check_sources(st, ops, agg, n, max_shards=4):
   groupings = ((), full_chain) if m > 1 else ((),)
   # -- whole source, fully chained ---------------------------------------------------
   replay = dict(base, strategy='chain', cuts=list(full_chain))
-  st.case(('sources/chain', ops, agg, n, full_chain), nontrivial=nontrivial)
-  try:
-    ob = S.run_iterate(S.build_chained(ops, agg, S.make_source('seq', records),
-                                       full_chain))
-    _compare(st, 'chain', klass, ref, ob.batches, ob.agg, ob.returned, False,
-             replay)
-  except Exception as e:  # pylint: disable=broad-except
-    st.violation(f'C03:chain:raise:{type(e).__name__}',
-                 dict(replay, error=repr(e)[:300]), replay=replay)
+  if first:
+    st.case(('sources/chain', ops, agg, n, full_chain), nontrivial=nontrivial)
+    try:
+      ob = S.run_iterate(S.build_chained(
+          ops, agg, S.make_source('seq', records), full_chain))
+      _compare(st, 'chain', klass, ref, ob.batches, ob.agg, ob.returned, False,
+               replay)
+    except Exception as e:  # pylint: disable=broad-except
+      st.violation(f'C03:chain:raise:{type(e).__name__}',
+                   dict(replay, error=repr(e)[:300]), replay=replay)
   # -- leaf shards -------------------------------------------------------------------
   plans = []
   for cuts in groupings:
@@ -368,7 +373,7 @@ def check_sources(st, ops, agg, n, max_shards=4):
                   ('iter-source', cuts, k)]
     if not cuts:
       plans += [('make+workers', cuts, kt) for kt in NESTED]
-  for via, cuts, k in plans:
+  for via, cuts, k in plans[part[0]::part[1]]:
     replay = dict(base, strategy='shard', via=via, cuts=list(cuts),
                   k=list(k) if isinstance(k, tuple) else k)
     st.case(('sources/shard', via, ops, agg, n, cuts, k), nontrivial=nontrivial)
@@ -380,7 +385,7 @@ def check_sources(st, ops, agg, n, max_shards=4):
       st.violation(f'C03:shard[{via}]:raise:{type(e).__name__}',
                    dict(replay, error=repr(e)[:300]), replay=replay)
   # -- one record at a time (as many states to merge as records) ----------------------
-  if agg:
+  if agg and first:
     _check_update_state(st, ops, agg, records, (), ref, klass, base, nontrivial)
 
 
@@ -391,27 +396,33 @@ def source_programs(quick):
   every = tuple(a for a in S.AGGS if a != 'racy')
   lists = S.op_lists(1, plain=plain)
   long_, long_agg = LONG_SIZES[tier], LONG_AGG_SIZES[tier]
+  long_ops_agg = LONG_OPS_AGG_SIZES[tier]
   out = [(ops, None, SMALL_SIZES + long_) for ops in lists]
-  out += [(ops, 'bag/a', SMALL_SIZES + long_agg) for ops in lists]
+  out += [(ops, 'bag/a', SMALL_SIZES + (long_ops_agg if ops else long_agg))
+          for ops in lists]
   out += [((), a, SMALL_SIZES + long_agg) for a in every if a != 'bag/a']
   if not quick:
-    out += [(ops, a, long_agg) for ops in lists if ops for a in every
+    out += [(ops, a, SMALL_SIZES + long_ops_agg) for ops in lists if ops
+            for a in every
             if a != 'bag/a']
   desc = ('every list of <= 1 operator (%s, r1, r2) without aggregate over n '
-          'in %s, with aggregate bag/a over n in %s, %s with every other '
-          'aggregate over n in %s'
+          'in %s; the empty list with every aggregate over n in %s; every '
+          'list of 1 operator with %s over n in %s'
           % ('/'.join(plain), list(SMALL_SIZES + long_),
              list(SMALL_SIZES + long_agg),
-             'the empty list' if quick else 'every such list', 
-             list(SMALL_SIZES + long_agg)))
+             'aggregate bag/a' if quick else 'every aggregate',
+             list(SMALL_SIZES + long_ops_agg)))
   return out, desc
 
 
+SPLIT_LONG = 3      # work units per (program with aggregate, long size)
+
+
 def _src_unit(args):
-  ops, agg, sizes = args
+  ops, agg, sizes, part = args
   st = Stats()
   for n in sizes:
-    check_sources(st, tuple(ops), agg, n)
+    check_sources(st, tuple(ops), agg, n, part=part)
   if sizes[0] == LONG_SIZES['quick'][-1] and not ops and agg is None:
     st.sample({'part': 'source-level strategies, long data source',
                'operators': list(ops), 'aggregate': agg, 'n': sizes[0],
@@ -536,11 +547,10 @@ def thread_configs(tier):
   full_more = [
       c(ops=[], agg='bag', n=7, source='seq', threads=2),
       c(ops=[], agg='bag', n=7, source='stream', threads=2),
-      c(ops=[], agg='bag', n=10, source='seq', threads=3),
   ]
   full = [('1 worker + consumer, more records (4-5) than the output queue '
            'holds (3 x num_threads), preemption bound 1', 1, full_one),
-          ('2/3 workers + consumer, more records (7/10) than the output queue '
+          ('2 workers + consumer, more records (7) than the output queue '
            'holds, preemption bound 0 (free switches at blocking points)', 0,
            full_more)]
   if tier == 'quick':
@@ -554,8 +564,14 @@ def thread_configs(tier):
   # thorough.  Measured (one process, happens-before cache): 1 worker at bound
   # 3 = 3*10^4 executions for 2 records; 2 workers at bound 2 = 3*10^4 (1
   # record) / 6-9*10^4 (2 records); 3 workers at bound 1 = 1-2*10^4.
-  full[1] = (full[1][0], 0, full_more + [
-      c(ops=[], agg='bag', n=10, source='stream', threads=3)])
+  # (3 workers, 10 records: 2*10^2 executions on a correct tree, but a defect
+  # that multiplies the records multiplies the schedules - thorough only,
+  # where the runner's deadline applies)
+  full[1] = ('2/3 workers + consumer, more records (7/10) than the output '
+             'queue holds, preemption bound 0 (free switches at blocking '
+             'points)', 0, full_more + [
+                 c(ops=[], agg='bag', n=10, source='seq', threads=3),
+                 c(ops=[], agg='bag', n=10, source='stream', threads=3)])
   return full + [
           ('1 worker + consumer, preemption bound 3', 3, one_deep[1:]),
           ('1 worker + consumer, preemption bound 2', 2, one_deep[:1] + one),
@@ -592,6 +608,8 @@ def interleaved_configs(tier):
 
 
 # =============================================================================
+
+QUICK_E1_BUDGET_S = 1200
 
 SPLIT = {'quick': 2, 'thorough': 1}    # subtrees per E1 configuration (each
                                        # has its own happens-before cache)
@@ -669,7 +687,8 @@ def run(ctx):
       'put 1..4 read-ahead windows of %d elements -1/0/+1 element, and sizes '
       'in no relation to the window, into the source, so that leaf shards of '
       '63/64/65/127/128/129 and 43..100 elements occur in first, middle and '
-      'last position): %s; for each (program, n): fully chained over the '
+      'last position; record i is a batch of (2,1,2,1,1,2,1)[i mod 7] rows, '
+      'no two rows equal): %s; for each (program, n): fully chained over the '
       'whole source; shard counts k = 1..4 through data_source(ds.shard(i,k)) '
       'and through the data sources a first stage with num_threads=k hands '
       'to its workers (the runner\'s own sharding, each iterated without '
@@ -710,10 +729,11 @@ def run(ctx):
     src_units = []
     for ops, agg, sizes in sprogs:
       small = tuple(n for n in sizes if n < WINDOW - 1)
-      src_units += [('sources', (ops, agg, (n,))) for n in sizes
-                    if n >= WINDOW - 1]
+      parts = SPLIT_LONG if agg else 1
+      src_units += [('sources', (ops, agg, (n,), (i, parts))) for n in sizes
+                    if n >= WINDOW - 1 for i in range(parts)]
       if small:
-        src_units.append(('sources', (ops, agg, small)))
+        src_units.append(('sources', (ops, agg, small, (0, 1))))
     src_units.sort(key=lambda u: -sum(u[1][2]))
     ctx.pmap(_e3_unit, src_units + units)
     ctx.notes['programs'] = len(progs)
@@ -727,6 +747,14 @@ def run(ctx):
     # the runner's wall-clock safety net: open subtrees past the deadline are
     # abandoned and reported through ctx.cap (run marked not exhaustive)
     limits['deadline'] = ctx.deadline
+  elif quick:
+    # the quick tier has no runner deadline; on a correct tree its schedule
+    # spaces take minutes even on a loaded machine, but a defect can inflate
+    # them without bound (e.g. every worker reading the whole source): past
+    # this wall-clock budget open subtrees are abandoned and reported through
+    # ctx.cap (the violations found so far are reported as usual)
+    import time
+    limits['deadline'] = time.time() + QUICK_E1_BUDGET_S
   if 'threads' in only:
     seeds += [('vmc.sharness', n, p, (bound, 0), 2, limits)
               for _, bound, cfgs in tgroups for n, p in cfgs]
@@ -745,7 +773,13 @@ def run(ctx):
       work += [(module, name, params, bounds, prefixes[i::k], lim)
                for i in range(k) if prefixes[i::k]]
     ctx.merge(st)
-  ctx.pmap(_dfs, ctx.shuffled(work))
+  work = ctx.shuffled(work)
+  if not quick:
+    # under the thorough tier's wall-clock budget the groups are explored in
+    # order of increasing bound, so that what the budget cuts is the deepest
+    # group and not a cheap one that happened to be dealt last
+    work.sort(key=lambda w: w[3][0])
+  ctx.pmap(_dfs, work)
   ctx.notes['bounds'] = [[l, len(c)] for l, _, c in tgroups + igroups]
   ctx.notes['hb_cache'] = True
   ctx.sample({'part': 'threaded strategies', 'harness': 'threaded',
